@@ -18,8 +18,8 @@ RULE = ("the complete name set, no sampling: every key of ALL_PRIMITIVE_TYPES, P
         "COMMON_TYPES (string entries), every index 0.._NUM_PRIM+3 of primitive_name[], every ordering of "
         "every ISO C specifier multiset (char .. unsigned long long int, float, double, long double, _Bool, "
         "float/double/long double _Complex: 99 spellings), plus the hostile neighbourhood: every sequence of "
-        "<= 3 (thorough: 4) of the 10 specifier keywords, every sequence of <= 4 (thorough: 5) of the integer "
-        "keywords and double, and every one-character substitution/insertion (by 'x', '1'; thorough also '_', "
+        "<= 3 (thorough: 4) of the 10 specifier keywords, every sequence of <= 4 of the 6 integer "
+        "keywords (thorough: <= 5, with double), and every one-character substitution/insertion (by 'x', '1'; thorough also '_', "
         "'t'), deletion and doubling in each table identifier; case = (name, resolution path); distinct = (name, path); non-trivial = the name is "
         "accepted by gcc or by at least one cffi path; the seed only permutes the order of names and paths")
 ASSUMPTIONS = ["gcc -std=gnu11 with <stdint.h> <stddef.h> <sys/types.h> <wchar.h> <uchar.h> <stdbool.h> <complex.h> "
@@ -31,7 +31,7 @@ ASSUMPTIONS = ["gcc -std=gnu11 with <stdint.h> <stddef.h> <sys/types.h> <wchar.h
                "a valid C spelling that a cffi parser rejects (e.g. 'int long') is counted, not judged"]
 
 KW = ['signed', 'unsigned', 'short', 'long', 'int', 'char', 'float', 'double', '_Bool', '_Complex']
-INTKW = ['signed', 'unsigned', 'short', 'long', 'int', 'char', 'double']
+INTKW = ['signed', 'unsigned', 'short', 'long', 'int', 'char']
 ISO = ['char', 'signed char', 'unsigned char', 'short', 'signed short', 'short int', 'signed short int',
        'unsigned short', 'unsigned short int', 'int', 'signed', 'signed int', 'unsigned', 'unsigned int',
        'long', 'signed long', 'long int', 'signed long int', 'unsigned long', 'unsigned long int',
@@ -59,7 +59,7 @@ def spellings(thorough):
     out = []
     for s in ISO:
         out += [' '.join(p) for p in sorted(set(itertools.permutations(s.split())))]
-    for words, n in ((KW, 4 if thorough else 3), (INTKW, 5 if thorough else 4)):
+    for words, n in ((KW, 4 if thorough else 3), (INTKW + ['double'] * thorough, 5 if thorough else 4)):
         for L in range(1, n + 1):
             out += [' '.join(p) for p in itertools.product(words, repeat=L)]
     return out
@@ -173,7 +173,7 @@ def gcc_facts(tmp, names, tag=0, compiler='gcc'):
         raise core.Inconclusive(compiler + ' fact probe does not compile: ' + msg[-1500:])
     rc, out, err = cc.run_exe(exe)
     if rc != 0:
-        raise core.Inconclusive('gcc fact probe exited %s: %s' % (rc, err[-500:]))
+        raise core.Inconclusive('%s fact probe exited %s: %s' % (compiler, rc, err[-500:]))
     facts = {}
     for line in out.splitlines():
         p = line.split()
@@ -182,7 +182,7 @@ def gcc_facts(tmp, names, tag=0, compiler='gcc'):
                     'canon': CANON[int(p[6])] if int(p[6]) >= 0 else '?',
                     'umax': int(p[7]), 'smax': int(p[8]), 'fr': float(p[9])}
     if len(facts) != len(names):
-        raise core.Inconclusive('gcc fact probe printed %d of %d names' % (len(facts), len(names)))
+        raise core.Inconclusive('%s fact probe printed %d of %d names' % (compiler, len(facts), len(names)))
     return facts
 
 
@@ -225,7 +225,12 @@ def generate(ctx):
         for d in _par(gcc_facts, ctx.tmp, ok):
             facts.update(d)
         if ctx.thorough:        # second opinion: a name on which clang disagrees is not judged
-            for d in _par(lambda t, n, k: gcc_facts(t, n, k, 'clang'), ctx.tmp, ok):
+            try:
+                second = _par(lambda t, n, k: gcc_facts(t, n, k, 'clang'), ctx.tmp, ok)
+            except core.Inconclusive as e:
+                ctx.note('no second opinion: ' + str(e)[:300])
+                second = []
+            for d in second:
                 for n, g in d.items():
                     ctx.count('clang_agrees_with_gcc' if facts[n] == g else 'clang_disagrees_inconclusive')
                     if facts[n] != g:
@@ -237,6 +242,9 @@ def generate(ctx):
     ctx.count('names_iso_spelling_permutations', len(set(sum(
         [[' '.join(p) for p in itertools.permutations(s.split())] for s in ISO], []))))
     ctx.count('module_typedefs', len(setup['mod_names']))
+    acc = set(setup['mod_names'])
+    ctx.extra['inline_accepts_gcc_rejects_examples'] = sorted(acc - set(ok))[:12]
+    ctx.extra['gcc_accepts_inline_rejects_examples'] = sorted(set(ok) - acc)[:12]
     rng = ctx.rng('order')
     rng.shuffle(names)
     items = [[n, facts.get(n), rng.getrandbits(30)] for n in names]
